@@ -134,6 +134,25 @@ theorem L.expect_lookup_other (l : L) (x : Rec) (e : Env) (nm : String) (h : nm 
     · rfl
   | ver min v rest ih => exact ih _ h
 
+/-- every field named in a plain layout with distinct names IS assigned, with the value written
+    (`lookup = some`, not merely "reads as": a field that was not assigned would read as the zero value) -/
+theorem L.plain_expect_lookup (l : L) (x : Rec) (e : Env) (nm : String) (hp : l.plain = true)
+    (hd : l.names.Nodup) (hn : nm ∈ l.names) : (l.expect x e).lookup nm = some (x nm) := by
+  induction l generalizing e with
+  | nil => simp [L.names] at hn
+  | fld n k rest ih =>
+    simp only [L.names, List.nodup_cons] at hd
+    simp only [L.names, List.mem_cons] at hn
+    simp only [L.expect]
+    rcases hn with rfl | hn
+    · rw [L.expect_lookup_other rest x _ nm hd.1]; simp [List.lookup]
+    · exact ih _ hp hd.2 hn
+  | lit k v rest ih => exact ih _ hp hd hn
+  | _ => simp [L.plain] at hp
+
+theorem Env.get_of_lookup (e : Env) (nm : String) (v : Val) (h : e.lookup nm = some v) : e.get nm = v := by
+  simp only [Env.get, h]
+
 /-- frame for foreign names: whatever is decoded, a field the layout does not mention is untouched -/
 theorem over_other (l : L) (o x : Rec) (nm : String) (h : nm ∉ l.names) : (l.expect x []).over o nm = o nm := by
   simp only [Env.over, L.expect_lookup_other l x [] nm h, List.lookup]
